@@ -190,6 +190,51 @@ def grp_lit(g, members):
     return f'(mkG {g} {listlit([rid_lit(m) for m in members])})'
 
 
+def count_cands(N, s, t, inc, limit=4000):
+    """number of candidate routes (simple paths s..t crossing inc in order, <= CUTOFF links); only used to decide whether
+    the whole-batch existence search is small enough to be run in Coq"""
+    cnt = 0
+
+    def ok(p):
+        j = 0
+        for e in inc:
+            if e not in p:
+                return False
+            k = p.index(e)
+            if k < j:
+                return False
+            j = k
+        return True
+    stack = [(s, [s])]
+    while stack and cnt < limit:
+        u, p = stack.pop()
+        if u == t:
+            if len(p) <= CUTOFF + 1 and ok(p):
+                cnt += 1
+            continue
+        for v, _ in N.adj[u]:
+            if v not in p:
+                stack.append((v, p + [v]))
+    return cnt
+
+
+SEARCH_LIMIT = 150000
+
+
+def batch_small_enough(N, reqs, obs):
+    grouped = {m[0] for _, members in obs['groups'] for m in members}
+    prod = 1
+    for rid in obs['ids']:
+        if rid[0] not in grouped:
+            continue
+        r, (nodes, loose) = next((r, c) for r, c in zip(reqs, obs['clean']) if int(r['id']) == rid[0])
+        inc = [N.id[u] for u in nodes] if 'STRICT' in loose else []
+        prod *= max(1, count_cands(N, N.id[r['src']], N.id[r['dst']], inc))
+        if prod > SEARCH_LIMIT:
+            return False
+    return True
+
+
 def coq_term(N, reqs, groups, obs):
     sigs = {}
     rqs = []
@@ -205,7 +250,9 @@ def coq_term(N, reqs, groups, obs):
         o = 'DError'
     else:
         o = 'DOther'
-    return (f'run_dis {N.coq_graph()} {N.coq_kinds()} {N.coq_oms()} {CUTOFF}%nat {listlit(rqs)} {listlit(declared)} '
+    obs['judge_all'] = batch_small_enough(N, reqs, obs)
+    return (f'run_dis {N.coq_graph()} {N.coq_kinds()} {N.coq_oms()} {CUTOFF}%nat '
+            f'{"true" if obs["judge_all"] else "false"} {listlit(rqs)} {listlit(declared)} '
             f'{zl(obs["dedup"])} {listlit([rid_lit(i) for i in obs["ids"]])} '
             f'{listlit([grp_lit(g, m) for g, m in obs["groups"]])} {o}')
 
@@ -232,7 +279,15 @@ def judge(ctx, N, case, reqs, groups, obs, line):
         ctx.count('batches_with_duplicate_groups_removed')
     flags = {'cov_obs': cov_obs, 'nostale_obs': nostale_obs, 'aggregated': aggregated, 'out': obs['out']}
     v = f['v'].split(',')
+    x = f['x']
+    if x == '-':
+        ctx.count('batch_existence_not_judged_search_too_large')
     if v[0] == 'P':
+        if x == 'F' and v[1] == 'T' and v[2] == 'T' and 'F' not in v[3]:
+            ctx.corr_break('corr:Disjoint.exists_disjoint_assignment', 'gnpy returned a valid disjoint set of routes, the '
+                           'existence procedure says none exists', case, impl=obs['paths'], model=x)
+        elif x == 'T':
+            ctx.count('batch_assignment_exists_and_found')
         ctx.count('outcome_paths')
         okorig, okfinal, rflags = v[1], v[2], v[3]
         flags.update(okfinal=okfinal)
@@ -259,6 +314,18 @@ def judge(ctx, N, case, reqs, groups, obs, line):
                               'STRICT lists exists (<= 80 links)', case, flags=flags)
             else:
                 ctx.count('single_pair_errors_confirmed_unsatisfiable')
+            if x in 'TF' and x != v[1] and not aggregated:
+                ctx.corr_break('corr:Disjoint.exists_disjoint_assignment', 'pair and batch procedures disagree', case,
+                               impl=v[1], model=x)
+        elif x == 'F':
+            ctx.count('multi_group_errors_confirmed_unsatisfiable')
+        elif x == 'T':
+            # not a violation: the property claims completeness for a single pair only
+            ctx.count('multi_group_errors_although_assignment_exists')
+            if sum(1 for n_ in ctx.notes if n_.startswith('incomplete:')) < 3:
+                ctx.notes.append('incomplete: DisjunctionError although a disjoint assignment exists (allowed by the property '
+                                 'beyond one pair): ' + json.dumps({'requests': [(r['id'], r['src'], r['dst'], r['nodes'], r['loose'])
+                                                                                  for r in reqs], 'groups': groups}))
         else:
             ctx.count('multi_group_errors_not_judged')
     else:
@@ -355,7 +422,8 @@ def run(ctx):
     ctx.assumptions += [
         'links are unordered ROADM pairs: the generated meshes have no parallel lines between two sites (gnpy documents '
         'find_reversed_path / reversed_oms as inexact there)',
-        'completeness is judged for batches made of one pair group only (single_pair_errors); DisjunctionError on larger '
-        'or overlapping groups is counted, not judged (the pruning is not claimed complete there)',
+        'completeness is a violation only for batches made of one pair group (what the property claims); DisjunctionError '
+        'on larger or overlapping groups is classified by exists_disjoint_assignment (confirmed unsatisfiable / an '
+        'assignment exists) when the product of candidate counts is <= %d, counted as not judged otherwise' % SEARCH_LIMIT,
     ]
     return common.finish(ctx)
